@@ -7,19 +7,19 @@ CHECKS = {
  "C01": dict(
    technique="exhaustive enumeration of the finite input space against a walked reference calendar (differential oracle) + proptest-generated nth_weekday cases",
    category="exploration",
-   text="Every one of the 7,304,484 valid dates, every constructor triple in a superset box, every ISO week triple and every (month, nth, weekday) combination is enumerated and compared with an independent month-table calendar; for these finite domains the exploration is complete (exhaustive: true in evidence), nth_weekday with 32-bit nth is sampled by a limit-biased generator. ISOWeekDate navigation (tomorrow, yesterday, first/last of week and year, weeks_in_year) and the era/ordinal builders are compared for every date.",
+   text="Every one of the 7,304,484 valid dates, every constructor triple in a superset box, every ISO week triple and every (month, nth, weekday) combination is enumerated and compared with an independent month-table calendar; for these finite domains the exploration is complete (exhaustive: true in evidence), nth_weekday with 32-bit nth is sampled by a limit-biased generator. ISOWeekDate navigation (tomorrow, yesterday, first/last of week and year, weeks_in_year) and the era/ordinal builders are compared for every date; so are the four weekday numbering schemes and the Weekday algebra (wrapping_add/sub, since/until, cycles, next/previous). Date::constant must be the same date or the documented panic for every triple, in the debug-assertion build and - through a child process running the release build of the harness - without debug assertions.",
    note="Trusted: harness refcal.rs (walked year table + textbook leap rule, self-tested at start-up). crates/jiff-static's copy of itime.rs is exercised by C18, not here.",
    design="DESIGN.md section 3 C01"),
  "C02": dict(
    technique="boundary-exhaustive sweep + proptest generation against an i128 floor-div / walked-calendar oracle; round-trip and constructor/view agreement",
    category="exploration",
-   text="All 7.3M local day boundaries (+-1ns) for a set of offsets, every second of several days for 40 offsets, all 187,199 offsets on fixed instants are enumerated; millions of limit-biased (instant, offset), (civil, offset) and constructor inputs are generated. Each is compared with the Gregorian decomposition of floor((t+o)/day) computed independently; equality of round-tripped instants is checked through ==, Ord, Hash and every unit view.",
+   text="All 7.3M local day boundaries (+-1ns) for a set of offsets, every second of several days for 40 offsets, all 187,199 offsets on fixed instants are enumerated; millions of limit-biased (instant, offset), (civil, offset) and constructor inputs are generated. Each is compared with the Gregorian decomposition of floor((t+o)/day) computed independently; equality of round-tripped instants is checked through ==, Ord, Hash and every unit view. Timestamp::constant is called for every generated (second, nanosecond), valid or not, in both build modes (release build via a child process): same instant or the documented panic.",
    note="Trusted: refcal.rs and i128 arithmetic. Random parts are sampled, not exhaustive.",
    design="DESIGN.md section 3 C02"),
  "C03": dict(
    technique="differential testing against an independent RFC 8536 + POSIX TZ reader on the same bytes; structured sweep of every transition +-{1s,0.5s,1ns} plus proptest-generated probes and generated POSIX TZ strings",
    category="exploration",
-   text="Every recorded transition of every installed and bundled zone and of synthetic zic zones, and rule-generated transitions of sampled years, are probed on both sides to the nanosecond and compared with an independent reader of the same data; generated POSIX strings extend the rule space.",
+   text="Every recorded transition of every installed and bundled zone and of synthetic zic zones, and rule-generated transitions of sampled years, are probed on both sides to the nanosecond and compared with an independent reader of the same data; generated POSIX strings extend the rule space. At every probe the same three facts are also read through strftime (%z, %:z, %Z). Generated TZif files without any transition (four local-time-type layouts x every tame rule) must load and follow their footer at every instant.",
    note="Trusted: reftz.rs (validated against zdump in the thorough tier). Excluded and counted: files whose footer contradicts their last transition; generated POSIX rules that spill over a year boundary (jiff documents year clamping). Zero-length daylight periods are generated and judged (standard time throughout).",
    design="DESIGN.md section 3 C03"),
  "C04": dict(
@@ -32,96 +32,96 @@ CHECKS = {
    technique="differential proptest over an API table: ~180 public fallible operations called with limit-biased generated arguments in two builds of the same harness (debug assertions + overflow checks on, and release) connected by a pipe; oracle = no panic in either build, range predicates and print/parse canaries on every Ok value (evaluated inside the panic guard), and identical answers in both builds; proptest shrinking works across both builds",
    category="exploration",
    text="Rows cover constructors, checked/saturating arithmetic with Span/SignedDuration/Duration, until/since with every option, round, with-builders, series, civil->instant conversion with every disambiguation and offset-conflict strategy, Span checked_add/sub/mul/round/total/compare/to_duration with every kind of relative datetime, duration and offset conversions. Arguments: dates/times/timestamps at and next to their limits, instants at zone transitions of 30 zones (incl. +-25:59:59, right/, POSIX, synthetic), spans with units at their limits, increments {divisors, 0, -1, i64::MIN/MAX, non-divisors}, integers at the limits of i8/i16/i32/i64/i128, special floats.",
-   note="'With debug assertions' is the dbg profile (optimised, debug-assertions and overflow-checks on); 'without' is the rel profile. Which of Ok/Err is right is left to C06..C12. Option-returning and documented-panicking APIs are not rows.",
+   note="'With debug assertions' is the dbg profile (optimised, debug-assertions and overflow-checks on); 'without' is the rel profile. Which of Ok/Err is right is left to C06..C12. Option-returning and documented-panicking APIs are not rows. FromStr of durations, spans, timestamps and dates (text built from generated unit values up to the limits of i64) are rows.",
    design="DESIGN.md section 3 C05"),
  "C06": dict(
    technique="proptest generation of (zone, instant near transitions, span/duration) against a reference interpreter (civil add on day numbers, compatible resolution via the independent zone reader, exact nanosecond add); targeted construction of starts whose civil intermediate lands inside a gap/fold",
    category="exploration",
-   text="Zoned +/- span and absolute durations in checked, saturating and operator forms, plus start_of_day/end_of_day/tomorrow/yesterday, are compared with the reference interpreter over every installed, synthetic and POSIX zone; 19% of span cases have their civil intermediate inside a gap or fold by construction; unsigned std Durations include values above 2^63 seconds (checked forms must fail, saturating forms clamp and keep the zone).",
+   text="Zoned +/- span and absolute durations in checked, saturating and operator forms, plus start_of_day/end_of_day/tomorrow/yesterday, are compared with the reference interpreter over every installed, synthetic and POSIX zone; 19% of span cases have their civil intermediate inside a gap or fold by construction; unsigned std Durations include values above 2^63 seconds (checked forms must fail, saturating forms clamp and keep the zone). Every result must show the civil time and offset of its own instant, and one more day added to a value obtained by tomorrow/yesterday/start_of_day must again match the reference.",
    note="Trusted: reftz.rs, refarith.rs. Two listed findings (start/end of day when midnight lies strictly inside a gap; odd synthetic zones and right/Asia/Tehran only).",
    design="DESIGN.md section 3 C06"),
  "C07": dict(
    technique="proptest generation of ordered pairs per type x every permitted largest unit; metamorphic/structural oracle (a + until(a,b) == b, sign, largest bound, balance by 'one more overshoots', since == -until, exact duration)",
    category="exploration",
-   text="Pairs of dates, datetimes, times, timestamps and zoned datetimes (built around every zone's transitions, both sides of folds, same wall clock k days apart) are differenced with every permitted largest unit; reversibility, sign consistency, balance and negation laws are checked on each result, and no input may panic.",
+   text="Pairs of dates, datetimes, times, timestamps and zoned datetimes (built around every zone's transitions, both sides of folds, same wall clock k days apart) are differenced with every permitted largest unit; reversibility, sign consistency, balance and negation laws are checked on each result, and no input may panic; differences whose other end is taken from a larger type (Date::until(&Zoned), Time::until(DateTime), DateTime::until(Date), Timestamp::until(Zoned), with and without a unit) must equal the same-type difference.",
    note="Trusted: jiff's own addition as metamorphic carrier (decided independently by C06/C08). Calendar balance for year/month units follows Temporal's unconstrained-date comparison; intermediates falling in a gap are not judged for balance. One listed finding (Temporal-conformant 24h+ remainder when the end is the later instant of a fold).",
    design="DESIGN.md section 3 C07"),
  "C08": dict(
    technique="proptest generation of (civil value, span/duration) pairs up to the unit limits against a reference interpreter on day numbers and i128 nanoseconds (differential oracle)",
    category="exploration",
-   text="Limit-biased spans (every unit up to its documented limit, both signs, all unit mixes) and absolute durations (up to i64 seconds) are added to / subtracted from dates, datetimes and clock times through checked, saturating, wrapping and operator forms and series; each result (or error) is compared with exact arithmetic on day counts and nanoseconds-of-day.",
+   text="Limit-biased spans (every unit up to its documented limit, both signs, all unit mixes) and absolute durations (up to i64 seconds) are added to / subtracted from dates, datetimes and clock times through checked, saturating, wrapping and operator forms and series; each result (or error) is compared with exact arithmetic on day counts and nanoseconds-of-day; for Date, DateTime and Time series nth/skip/step_by/next-then-nth must see the same sequence as plain iteration.",
    note="Trusted: refarith.rs + refcal.rs. Sampled, not exhaustive.",
    design="DESIGN.md section 3 C08"),
  "C09": dict(
    technique="round-trip property (parse(print(v)) == v) over proptest-generated values and printer options, plus an independent RFC 3339 reader written from the ABNF as a differential oracle",
    category="exploration",
-   text="Timestamps with every sub-second precision, civil dates/times/datetimes, and zoned datetimes in every database zone around every transition (35% placed inside a fold, on either pass; all sub-minute-offset periods) are printed and parsed back; instant, civil fields, offset and zone must be identical, reduced precision must equal truncation, an independent reader must decode the same instant, and the text parses back identically under DateTimeParser with offset_conflict prefer-offset/reject and every disambiguation.",
+   text="Timestamps with every sub-second precision, civil dates/times/datetimes, and zoned datetimes in every database zone around every transition (35% placed inside a fold, on either pass; all sub-minute-offset periods) are printed and parsed back; instant, civil fields, offset and zone must be identical, reduced precision must equal truncation, an independent reader must decode the same instant, and the text parses back identically under DateTimeParser with offset_conflict prefer-offset/reject and every disambiguation, from bytes, with an explicit database and through Pieces (parse, accessors, to_time_zone, re-print, From impls). The Write-based printers into String, Vec<u8>, StdFmtWrite and StdIoWrite over a sink that takes a few bytes per call must produce the same text; Display precisions from 0 to 65535 must equal the printer's (above nine: nine digits, lossless); serde serialisation is the printed form and deserialises (from text and bytes) to an equal value.",
    note="Folds whose two offsets round to the same minute cannot be distinguished by RFC 3339 text (inherent to the format): not judged, counted. Zones are those reachable by name through the global database.",
    design="DESIGN.md section 3 C09"),
  "C10": dict(
    technique="proptest generation of (value on/near the rounding grid, unit, mode, increment incl. illegal ones) against exact integer rounding written from the mode definitions; Zoned oracle via the reference zone reader",
    category="exploration",
-   text="Values are constructed relative to the grid (multiples, midpoints, +-1ns, cell ends) at the type limits, around zero and uniformly, for Timestamp, Time, DateTime (years <= 0 over-weighted), SignedDuration, Offset and Zoned (around every zone's transitions, real day lengths); all nine modes; legal divisors and illegal increments; the builder's setters are applied in a case-dependent order. Results, errors and increment legality are compared with an exact i128 oracle.",
+   text="Values are constructed relative to the grid (multiples, midpoints, +-1ns, cell ends) at the type limits, around zero and uniformly, for Timestamp, Time, DateTime (years <= 0 over-weighted), SignedDuration, Offset and Zoned (around every zone's transitions, real day lengths); all nine modes; legal divisors and illegal increments; the builder's setters are applied in a case-dependent order; the From<Unit> and From<(Unit, i64)> shorthands and builders started from Default::default() must equal the builder started from new(). Results, errors and increment legality are compared with an exact i128 oracle.",
    note="Trusted: wide.rs round_to (nine modes from their definitions), refcal/reftz. Hour increments other than 1 for SignedDuration/Offset are not settled by the docs: either outcome accepted. Non-contiguous civil days (fold straddling midnight) are not judged for day rounding.",
    design="DESIGN.md section 3 C10"),
  "C11": dict(
    technique="proptest against independent reference arithmetic (walked calendar, RFC 8536/POSIX zone reader, i128/rational): law-level oracle for Span::round over the full option product and every reference kind, exact i128 oracle for uniform units, exact rational oracle for Span::total (unit window found by search with addition), end-point ordering for Span::compare, exact (r+span)-r for to_duration, exact sums for uniform checked_add/sub, refusal rules",
    category="exploration",
-   text="Spans of any unit mix and both signs x reference {none, Date, DateTime, Zoned at/near transitions of every zone, days-are-24-hours marker} x smallest x largest x increment x 9 modes. Checked: units outside [largest, smallest] zero; smallest field a multiple of the increment; r+result is the neighbour the mode prescribes among r+(result with its smallest field +-increment), boundaries and ties strictly; uniform cases field-for-field; balancing (ns, 1) leaves r+span unchanged; totals to 2^-44 relative; compare = order of r+a, r+b; r+(a+b) == (r+a)+b for checked_add/sub with a relative datetime; with increment 1, expand lands on the trunc result or exactly one unit further; invalid options and calendar units without reference must be Err; nothing-near-a-limit must be Ok.",
+   text="Spans of any unit mix and both signs x reference {none, Date, DateTime, Zoned at/near transitions of every zone, days-are-24-hours marker} x smallest x largest x increment x 9 modes. Checked: units outside [largest, smallest] zero; smallest field a multiple of the increment; r+result is the neighbour the mode prescribes among r+(result with its smallest field +-increment), boundaries and ties strictly; uniform cases field-for-field; balancing (ns, 1) leaves r+span unchanged; totals to 2^-44 relative; compare = order of r+a, r+b; r+(a+b) == (r+a)+b for checked_add/sub with a relative datetime; with increment 1, expand lands on the trunc result or exactly one unit further; invalid options and calendar units without reference must be Err; nothing-near-a-limit must be Ok; the tuple shorthands ((Unit, Date), (Span, &Zoned), (&Span, DateTime), ...) must answer like the SpanRelativeTo forms; c11.compare_fold aims both end points of a comparison into one repeated hour (one span by days, one by hours).",
    note="Stated tolerances (each counted in the evidence): f64 band for calendar smallest units strictly inside a decision point, half-even ties either way, Temporal-conformant quirks where jiff follows its documented model but the literal statement does not hold (bubbling onto a clamped day of month; re-rounding the remainder across a day whose length is not a multiple of the increment; wall-clock reading of whole units inside a fold for totals), no verdict next to transitions that skip a whole day. Listed finding: smallest=day, largest=week, increment>1 leaves a day field that is not a multiple of the increment.",
    design="DESIGN.md section 3 C11"),
  "C12": dict(
    technique="model-based proptest: Span operation histories against a (magnitudes, sign) model with the documented sign rule; SignedDuration ops against one i128 nanosecond count; float constructors against the exact decomposition of the IEEE value",
    category="exploration",
-   text="Histories of try-setters (values in, at and just over each limit), negate, abs and checked_mul are interpreted step by step against the model; SignedDuration add/sub/mul/div/neg/abs/saturating/views/constructors and conversions to and from Span and std Duration are compared with exact i128 arithmetic, overflow reported exactly when unrepresentable; operator forms, Sum impls and fieldwise (in)equality of Spans included; float constructors on raw bit patterns and boundary values.",
+   text="Histories of try-setters (values in, at and just over each limit), negate, abs and checked_mul are interpreted step by step against the model; SignedDuration add/sub/mul/div/neg/abs/saturating/views/constructors and conversions to and from Span and std Duration are compared with exact i128 arithmetic, overflow reported exactly when unrepresentable; operator forms, Sum impls, the panicking setters and ToSpan constructors, 'largest factor that still fits' multipliers and fieldwise (in)equality of Spans included; float views (as_secs_f32, as_millis_f64/f32, div_duration_f32) and float scaling (mul_f64/f32, div_f64/f32 by dyadic factors) within stated tolerances; from_secs_f64/f32 equal the try_ forms or panic; float constructors on raw bit patterns and boundary values.",
    note="Stated tolerances: +-1ns for f64 constructors (round-to-nearest implied by the rustdoc example), +-64ns for f32 (documented precision loss), 4e-16 relative for float views. SignedDuration::new inputs that are documented to panic are not called.",
    design="DESIGN.md section 3 C12"),
  "C13": dict(
    technique="stateful (model-based) proptest: generated histories of 35 public operation kinds interpreted step by step; invariant evaluated after every successful step through jiff's own lookups and through the independent zone reader; histories shrink as one value",
    category="exploration",
-   text="Start values in any database zone around transitions, then 1..12 operations (arithmetic, rounding, every with-builder incl. offset/conflict/disambiguation strategies, zone changes, day/month/year navigation, print->parse, strftime->strptime, civil->zoned strategies, until-then-add-back, epoch neighbourhood jumps). After each step: stored offset == zone's offset at the instant, stored civil == instant shifted by it (both vs jiff and vs the reference), instant coherent; finally Eq/Ord/Hash depend on the instant only.",
+   text="Start values in any database zone around transitions, then 1..12 operations (arithmetic, rounding, every with-builder incl. offset/conflict/disambiguation strategies, zone changes, day/month/year navigation, print->parse, strftime->strptime, civil->zoned strategies, until-then-add-back, epoch neighbourhood jumps). After each step: stored offset == zone's offset at the instant, stored civil == instant shifted by it (both vs jiff and vs the reference), instant coherent, and every field accessor of the Zoned (year..nanosecond, weekday, day_of_year, days_in_month/year, leap year, era, ISO week date) reads the reference civil time; Zoned::default() is held to the same invariant; finally Eq/Ord/Hash depend on the instant only.",
    note="Operations returning Err leave the state unchanged (counted). Trusted: reftz.rs. Zones are those reachable by name through the global database, fixed offsets and UTC.",
    design="DESIGN.md section 3 C13"),
  "C14": dict(
    technique="model-based differential testing of the following/preceding iterators against the reference transition list (explicit + rule-generated), bounded pulls and to-exhaustion runs under a step cap; structured starts around every hand-over + proptest",
    category="exploration",
-   text="Iterators are started on, just before and just after transitions of every zone, at range limits and random instants, in both directions; monotonicity, strictness, per-item info (vs data and vs direct lookup), completeness and absence of spurious items are checked over the covered range; featured/synthetic zones (all zones in thorough) are iterated to exhaustion with a termination cap; POSIX rules whose transitions fall on the first and last representable seconds are part of the universe.",
+   text="Iterators are started on, just before and just after transitions of every zone, at range limits and random instants, in both directions; monotonicity, strictness, per-item info (vs data and vs direct lookup), completeness and absence of spurious items are checked over the covered range; featured/synthetic zones (all zones in thorough) are iterated to exhaustion with a termination cap; POSIX rules whose transitions fall on the first and last representable seconds are part of the universe. Rules whose transitions jiff clamps to the end of their year (outside the reference model) are checked for the clauses that need no reference: order, strictness, each item equal to direct lookup at the yielded instant to the nanosecond, both directions visiting the same instants (c14.clamped_rules). A finished iterator must stay finished.",
    note="Trusted: reftz.rs transition list. Recorded transitions that change nothing may be yielded (allowed by the statement).",
    design="DESIGN.md section 3 C14"),
  "C15": dict(
    technique="round-trip / metamorphic proptest over (Span or SignedDuration) x jointly drawn friendly printer configuration and ISO option; lossless configurations must re-parse unit for unit, every configuration within one unit of the last printed digit; humantime crate as independent reader of HumanTime output",
    category="exploration",
-   text="Limit-biased spans and durations are printed under randomly drawn printer configurations (designator, spacing, direction, fractional unit, comma, HH:MM:SS, padding, precision, zero unit) and re-parsed; ISO 8601 output likewise.",
+   text="Limit-biased spans and durations are printed under randomly drawn printer configurations (designator, spacing, direction, fractional unit, comma, HH:MM:SS, padding, precision, zero unit) and re-parsed; ISO 8601 output likewise. Every printer is also driven through the Write-based entry points into String, Vec<u8>, StdFmtWrite and StdIoWrite over a sink that takes 1..5 bytes per call: the same text must arrive. serde serialisation equals Display and deserialises to an equal value; durations with zero seconds and negative nanoseconds are generated deliberately.",
    note="Calendar units compared fieldwise; uniform units folded into an i128 total (days=24h) only for comparison. Listed finding: durations with i64::MIN seconds do not re-parse from the friendly form.",
    design="DESIGN.md section 3 C15"),
  "C16": dict(
    technique="differential proptest: every strftime specifier x flag x width against the walked reference calendar rendered with jiff's documented padding rules and against glibc strftime (libc) numerically; round trips through generated multi-specifier formats; contradiction injection; RFC 2822 field-by-field independent read",
    category="exploration",
-   text="Zoned values in 31 zones (sub-minute and extreme fixed offsets, names containing +, - and digits), dates over-weighted to year boundaries, all specifiers with all flags and widths; strptime(strftime(v)) == v for 21 formats; perturbed weekdays must be rejected; RFC 2822 print/parse incl. obsolete zone names.",
+   text="Zoned values in 33 zones (sub-minute and extreme fixed offsets, names containing +, - and digits), dates over-weighted to year boundaries, all specifiers with all flags and widths; strptime(strftime(v)) == v for 21 formats; perturbed weekdays must be rejected; RFC 2822 print/parse incl. obsolete zone names and the relaxed-weekday parser; the RFC 9110 form field by field against the UTC reference. All formatting routes (strtime::format, Zoned/DateTime::strftime Display, BrokenDownTime::to_string/format into several writers) must agree; the fields of a parsed BrokenDownTime are compared one by one with the value printed, as are to_zoned/to_zoned_with/to_datetime/to_date/to_time and parse_prefix; a BrokenDownTime filled through its setters (four ways of naming the date) must convert to the same values, and a wrong weekday must be refused whichever way the date is named (month/day or day of year).",
    note="Text layout follows jiff's own documented table (POSIX fidelity is a documented non-goal); only calendar facts are compared with glibc. Listed findings: padding widths > 19 are capped; %A cannot parse 'Tuesday' (typo pinned by a snapshot test).",
    design="DESIGN.md section 3 C16"),
  "C17": dict(
    technique="grammar- and structure-aware mutation fuzzing with the oracle inside the target: deterministic proptest mutation engine (quick) and coverage-guided libFuzzer/ASan campaigns on the same targets (thorough)",
    category="exploration",
-   text="Valid printed values and real/synthetic TZif files are mutated (truncation, digit overflow, sign/separator swaps, long runs, invalid UTF-8; header counts, extreme/unsorted transitions, offsets, designation indexes, hostile footers) and fed to every parser; no panic, Ok values in range and re-printable, accepted zones answer a battery of lookups, peak heap while parsing TZif bounded by a multiple of the input (counting allocator), coarse time-scaling test.",
+   text="Valid printed values and real/synthetic TZif files are mutated (truncation, digit overflow, sign/separator swaps, long runs, invalid UTF-8; header counts, extreme/unsorted transitions, offsets, designation indexes, hostile footers) and fed to every parser; no panic, Ok values in range and re-printable, accepted zones answer a battery of lookups, accepted RFC 2822 text prints back (both timestamp printers, RFC 2822 and RFC 9110) to text that parses to the identical value, BrokenDownTime::parse_prefix is driven with the same (format, input) pairs (consumed length within the input, agreement with parse), peak heap while parsing TZif bounded by a multiple of the input (counting allocator), coarse time-scaling test.",
    note="A process abort (stack overflow, memory error) is reported through a crash guard that names the running case. 'Work proportional to input' is decided by heap accounting plus a coarse timing test, not a complexity proof. The concatenated-tzdata reader has its own structure-aware mutation check (c17.concat: generated tzdata files with mutated header words, index entries, names, truncations, through from_concatenated_path/available/get).",
    design="DESIGN.md section 3 C17"),
  "C18": dict(
    technique="differential proptest and exhaustive per-zone sweeps: one TZif byte string loaded through every back-end (zoneinfo directory, bundled table, generated Android-style concatenated file, raw bytes, static get!/include! macros) must give byte-identical answer digests; the same digests are computed by a second harness binary built without tz-fat and compared across builds; slim vs fat zic output compared from the first common transition; generated case variants of names; POSIX print/parse round trip on generated rules",
    category="exploration",
-   text="Every bundled and installed zone plus the synthetic corpus, at the C03/C04/C14 probe instants (each transition +-1s/+-0.5ns, civil gap/fold edges, far past/future): offset info, civil resolution, previous/next transitions, printing. Name lookup with random case changes returns the canonical spelling. Generated POSIX rules (J/n/M dates, negative and >24h times, quoted abbreviations) print to a string that parses to a zone with identical answers. Generated slim TZif files whose footer rule needs local time types absent from the table (longer/shorter designations, look-alike types) are loaded, and the fattened answers compared with the reference reading of table + footer.",
+   text="Every bundled and installed zone plus the synthetic corpus, at the C03/C04/C14 probe instants (each transition +-1s/+-0.5ns, civil gap/fold edges, far past/future): offset info, civil resolution, previous/next transitions, printing. Name lookup with random case changes returns the canonical spelling; the same name with one letter replaced by a non-ASCII character that Unicode case mapping folds onto it (KELVIN SIGN, LONG S, dotted/dotless I, fullwidth letters) must be refused by every back-end. A private zoneinfo tree of ~90 bundled zones in which every directory also holds dangling symlinks, a symlink loop, empty/short/non-TZif files and empty directories must serve every zone (three spellings) and list exactly the zones (c18.dir_obstacles). Generated POSIX rules (J/n/M dates, negative and >24h times, quoted abbreviations) print to a string that parses to a zone with identical answers. Generated slim TZif files whose footer rule needs local time types absent from the table (longer/shorter designations, look-alike types) are loaded, and the fattened answers compared with the reference reading of table + footer.",
    note="The tz-fat-off configuration is a second build of the same harness (target-nofat) whose digest is compared line by line. tz::include! is exercised on the synthetic corpus at harness build time (build.rs); the jiff-static copy of shared code is therefore compared with the original on the same bytes.",
    design="DESIGN.md section 3 C18"),
  "C19": dict(
    technique="stateful (model-based) proptest over histories of lookups, resets, on-disk file changes and TTL changes against a private zoneinfo tree whose file versions identify themselves; plus multi-threaded stress with a version-window oracle and a no-progress watchdog",
    category="exploration",
-   text="Histories of 1..30 operations are checked step by step against a model of disk, names index and per-entry cache; allowed results follow the statement (exactly the current version once the TTL has passed or after reset, cached-or-current inside the TTL, never another zone's data, canonical spelling, available() == index view). A second model covers the concatenated (Android tzdata) back-end: lookups in four spellings, reset, file replacement and TTL changes against a generated tzdata file. Stress rounds run 2/4/16 threads against one database while files are replaced atomically; reset storms (long TTL, unchanged disk, worker lookups racing 1500 resets) require every lookup of an existing zone to succeed.",
+   text="Histories of 1..30 operations are checked step by step against a model of disk, names index and per-entry cache; allowed results follow the statement (exactly the current version once the TTL has passed or after reset, cached-or-current inside the TTL, never another zone's data, canonical spelling, available() == index view). A second model covers the concatenated (Android tzdata) back-end: lookups in four spellings, reset, file replacement, removal and re-addition of zones and TTL changes against a generated tzdata file (a removed zone is only served from an unexpired cache entry; available() after reset or expiry is exactly the file's list). Stress rounds run 2/4/16 threads against one database while files are replaced atomically; reset storms (long TTL, unchanged disk, worker lookups racing 1500 resets) require every lookup of an existing zone to succeed; c19.concat_race replaces a padded concatenated file and resets 40 times per round while 2..16 threads look zones up: a lookup started after reset() returned must see the new version.",
    note="Uses the cfg(jiff_verif) hook TimeZoneDatabase::__verif_set_ttl. Thread interleavings are sampled, not enumerated (std RwLock cannot be intercepted without non-additive changes). An entirely empty tree (documented: names are kept when the walk fails) is not generated.",
    design="DESIGN.md section 3 C19"),
  "C20": dict(
    technique="model-based testing of generated handle programs (reference model = payload per handle + allocation model via a counting global allocator), exhaustive enumeration of all fixed offsets, and the same interpreter as a libFuzzer target under AddressSanitizer/LeakSanitizer (thorough)",
    category="exploration",
-   text="Programs of up to ~150 operations over a pool of TimeZone handles of every kind (UTC, unknown, fixed, POSIX, TZif bytes, static get!) with clone/drop/move-through-Zoned/eq/query/swap and send-to-thread; every live handle must answer like a freshly built zone, equality laws hold, clones and non-last drops do not change live heap blocks, last drops free, nothing leaks; all 187,199 fixed offsets reproduce exactly; every other program runs with its heap blocks placed at 8 mod 16 (alignment assumptions of the tagged pointer); the system zone as an unnamed TZif handle (TZ=:/path) obeys the same equality laws and answers like the same bytes loaded directly.",
+   text="Programs of up to ~150 operations over a pool of TimeZone handles of every kind (UTC, unknown, fixed, POSIX, TZif bytes, static get!) with clone/clone_from (directly and through Option/Vec)/drop/move-through-Zoned/eq/query/swap and send-to-thread; every live handle must answer like a freshly built zone, equality laws hold, clones and non-last drops do not change live heap blocks, last drops free, nothing leaks; all 187,199 fixed offsets reproduce exactly; every other program runs with its heap blocks placed at 8 mod 16 (alignment assumptions of the tagged pointer); the system zone as an unnamed TZif handle (TZ=:/path) obeys the same equality laws and answers like the same bytes loaded directly.",
    note="Use-after-free/double free proper are caught by ASan in the thorough tier; in the quick tier through the allocation model, wrong answers, or a process abort (crash guard + glibc malloc checking to name the case). Thread interleavings are sampled.",
    design="DESIGN.md section 3 C20"),
 }
